@@ -1,1 +1,164 @@
 // verif hook module for src/octet.rs (compiled only with --cfg cberner_raptorq_verif)
+#![allow(dead_code, unused_imports)]
+use super::*;
+
+pub fn oct_exp(i: usize) -> u8 {
+    OCT_EXP[i]
+}
+pub fn oct_log(i: usize) -> u8 {
+    OCT_LOG[i]
+}
+
+#[cfg(kani)]
+mod kani_gf {
+    use super::super::*;
+    use crate::verif::gf::{gf_mul, gf_pow2};
+
+    // C10: product of the real operators equals the polynomial definition, all 65536 pairs.
+    #[kani::proof]
+    #[kani::unwind(9)]
+    fn gf_mul_matches_polynomial() {
+        let a: u8 = kani::any();
+        let b: u8 = kani::any();
+        let spec = gf_mul(a, b);
+        let r = &Octet::new(a) * &Octet::new(b);
+        assert!(r.byte() == spec, "C10 mul(&,&) == gf_mul");
+        let r2 = Octet::new(a) * Octet::new(b);
+        assert!(r2.byte() == spec, "C10 mul(val,val) == gf_mul");
+        assert!(OCTET_MUL[a as usize][b as usize] == spec, "C10 OCTET_MUL == gf_mul");
+        kani::cover!(a == 0x53 && b == 0xCA, "reach");
+    }
+
+    // C10: nibble tables used by the vector kernels.
+    #[kani::proof]
+    #[kani::unwind(9)]
+    fn gf_nibble_tables() {
+        let a: u8 = kani::any();
+        let b: u8 = kani::any();
+        let lo = (b & 0x0F) as usize;
+        let hi = (b >> 4) as usize;
+        let spec = gf_mul(a, b);
+        assert!(
+            OCTET_MUL_LOW_BITS[a as usize][lo] ^ OCTET_MUL_HI_BITS[a as usize][hi] == spec,
+            "C10 LOW[a][b&15] ^ HI[a][b>>4] == gf_mul"
+        );
+        assert!(
+            OCTET_MUL_LOW_BITS[a as usize][lo] == gf_mul(a, b & 0x0F),
+            "C10 LOW[a][n] == gf_mul(a,n)"
+        );
+        assert!(
+            OCTET_MUL_HI_BITS[a as usize][hi] == gf_mul(a, b & 0xF0),
+            "C10 HI[a][n] == gf_mul(a,n<<4)"
+        );
+        assert!(
+            OCTET_MUL_LOW_BITS[a as usize][lo + 16] == OCTET_MUL_LOW_BITS[a as usize][lo],
+            "C10 LOW upper half duplicates lower half"
+        );
+        assert!(
+            OCTET_MUL_HI_BITS[a as usize][hi + 16] == OCTET_MUL_HI_BITS[a as usize][hi],
+            "C10 HI upper half duplicates lower half"
+        );
+        kani::cover!(a == 0xFF && b == 0xFF, "reach");
+    }
+
+    // C10: add == sub == xor, fma == add after mul, AddAssign.
+    #[kani::proof]
+    #[kani::unwind(9)]
+    fn gf_add_sub_fma() {
+        let a: u8 = kani::any();
+        let b: u8 = kani::any();
+        let x: u8 = kani::any();
+        assert!((Octet::new(a) + Octet::new(b)).byte() == a ^ b, "C10 add is xor");
+        assert!((&Octet::new(a) + &Octet::new(b)).byte() == a ^ b, "C10 add(&,&) is xor");
+        assert!((Octet::new(a) - Octet::new(b)).byte() == a ^ b, "C10 sub is xor");
+        let mut t = Octet::new(a);
+        t += Octet::new(b);
+        assert!(t.byte() == a ^ b, "C10 add_assign is xor");
+        let mut t2 = Octet::new(a);
+        t2 += &Octet::new(b);
+        assert!(t2.byte() == a ^ b, "C10 add_assign(&) is xor");
+        let mut acc = Octet::new(x);
+        acc.fma(&Octet::new(a), &Octet::new(b));
+        assert!(acc.byte() == x ^ gf_mul(a, b), "C10 fma == x + a*b");
+        assert!(Octet::zero().byte() == 0 && Octet::one().byte() == 1, "C10 zero/one");
+        kani::cover!(a == 1 && b == 2 && x == 3, "reach");
+    }
+
+    // C10: division: (a / b) * b == a for all a, all b != 0.
+    #[kani::proof]
+    #[kani::unwind(9)]
+    fn gf_div_inverse() {
+        let a: u8 = kani::any();
+        let b: u8 = kani::any();
+        kani::assume(b != 0);
+        let q = &Octet::new(a) / &Octet::new(b);
+        assert!(gf_mul(q.byte(), b) == a, "C10 (a/b)*b == a");
+        let q2 = Octet::new(a) / Octet::new(b);
+        assert!(q2.byte() == q.byte(), "C10 div(val,val) == div(&,&)");
+        if a == 1 {
+            assert!(gf_mul(q.byte(), b) == 1, "C10 b * (1/b) == 1");
+        }
+        kani::cover!(a == 1 && b == 0xFF, "reach");
+    }
+
+    // C10: division by zero is refused (marker must be unreachable).
+    #[kani::proof]
+    fn gf_div_zero_refused() {
+        let a: u8 = kani::any();
+        let _q = &Octet::new(a) / &Octet::new(0);
+        assert!(false, "MARKER C10 division by zero accepted");
+    }
+
+    // C10: alpha(i) == 2^i for all i < 256, OCT_EXP periodic, OCT_LOG inverse of OCT_EXP.
+    #[kani::proof]
+    #[kani::unwind(258)]
+    fn gf_alpha_pow() {
+        // iterative: x_{i+1} = 2 * x_i ; check every i with a concrete loop (256 steps, each gf_mul unwound)
+        let mut x: u8 = 1;
+        let mut i = 0usize;
+        while i < 256 {
+            assert!(Octet::alpha(i).byte() == x, "C10 alpha(i) == 2^i");
+            x = gf_mul(x, 2);
+            i += 1;
+        }
+    }
+
+    #[kani::proof]
+    #[kani::unwind(9)]
+    fn gf_exp_log_tables() {
+        let i: usize = kani::any();
+        kani::assume(i < 255);
+        assert!(OCT_EXP[i + 255] == OCT_EXP[i], "C10 OCT_EXP[i+255] == OCT_EXP[i]");
+        assert!(OCT_LOG[OCT_EXP[i] as usize] as usize == i, "C10 OCT_LOG[OCT_EXP[i]] == i");
+        assert!(OCT_EXP[i] != 0, "C10 OCT_EXP[i] != 0");
+        if i < 254 {
+            assert!(OCT_EXP[i + 1] == gf_mul(OCT_EXP[i], 2), "C10 OCT_EXP[i+1] == 2*OCT_EXP[i]");
+        } else {
+            assert!(gf_mul(OCT_EXP[i], 2) == 1, "C10 alpha^255 == 1");
+        }
+        assert!(OCT_EXP[0] == 1, "C10 alpha^0 == 1");
+        kani::cover!(i == 254, "reach");
+    }
+
+    #[kani::proof]
+    fn gf_alpha_refuses_256() {
+        let i: usize = kani::any();
+        kani::assume(i >= 256);
+        let _ = Octet::alpha(i);
+        assert!(false, "MARKER C10 alpha(i>=256) accepted");
+    }
+
+    // C10 (redundant with equality to gf_mul): field laws on the real operators, 2^24 triples.
+    #[kani::proof]
+    fn gf_field_laws() {
+        let a: u8 = kani::any();
+        let b: u8 = kani::any();
+        let c: u8 = kani::any();
+        let (oa, ob, oc) = (Octet::new(a), Octet::new(b), Octet::new(c));
+        assert!((&oa * &ob) == (&ob * &oa), "C10 commutative");
+        assert!((&(&oa * &ob) * &oc) == (&oa * &(&ob * &oc)), "C10 associative");
+        assert!((&oa * &(&ob + &oc)) == (&(&oa * &ob) + &(&oa * &oc)), "C10 distributive");
+        assert!((&oa * &Octet::one()) == oa, "C10 one is identity");
+        kani::cover!(a == 7 && b == 9 && c == 200, "reach");
+    }
+}
